@@ -36,17 +36,51 @@ def get_fs():
     return _FS
 
 
-class SimReadFile(io.BytesIO):
-    """What open(path, 'rb') would give: seekable, named."""
+class SimRawRead(io.RawIOBase):
+    """The raw layer of open(path, 'rb'): wrapped in io.BufferedReader like a real file."""
 
     def __init__(self, path, data):
-        super().__init__(data)
+        super().__init__()
         self.name = path
         self.mode = "rb"
+        self._data = data
+        self._pos = 0
+
+    def readable(self):
+        return True
+
+    def seekable(self):
+        return True
+
+    def readinto(self, b):
+        m = memoryview(b).cast("B")
+        n = min(len(m), len(self._data) - self._pos)
+        if n <= 0:
+            return 0
+        m[:n] = self._data[self._pos : self._pos + n]
+        self._pos += n
+        return n
+
+    def seek(self, offset, whence=0):
+        if whence == 0:
+            self._pos = offset
+        elif whence == 1:
+            self._pos += offset
+        else:
+            self._pos = len(self._data) + offset
+        self._pos = max(0, self._pos)
+        return self._pos
+
+    def tell(self):
+        return self._pos
+
+    def fileno(self):
+        raise io.UnsupportedOperation("fileno")
 
 
-class SimWriteFile(io.BufferedIOBase):
-    """What open(path, 'wb') would give: every write lands in SimFS at once."""
+class SimRawWrite(io.RawIOBase):
+    """The raw layer of open(path, 'wb'): wrapped in io.BufferedWriter like a real file, so
+    data reaches SimFS when the buffer is flushed or the file is closed (or collected)."""
 
     def __init__(self, fs, path, append=False):
         super().__init__()
@@ -61,18 +95,15 @@ class SimWriteFile(io.BufferedIOBase):
     def writable(self):
         return True
 
-    def readable(self):
-        return False
-
     def seekable(self):
         return False
 
     def write(self, b):
         if self.closed:
             raise ValueError("write to closed file")
-        m = memoryview(b)
-        self._buf += m.tobytes() if not m.c_contiguous else m.cast("B")
-        return m.nbytes
+        m = memoryview(b).cast("B")
+        self._buf += m
+        return len(m)
 
     def tell(self):
         return len(self._buf)
@@ -94,8 +125,8 @@ def _sim_raw_open(path, mode):
         if path not in fs.files:
             raise FileNotFoundError(2, "No such file or directory", path)
         fs.events.append(("open", path))
-        return SimReadFile(path, bytes(fs.files[path]))
-    return SimWriteFile(fs, path, append="a" in mode)
+        return io.BufferedReader(SimRawRead(path, bytes(fs.files[path])))
+    return io.BufferedWriter(SimRawWrite(fs, path, append="a" in mode))
 
 
 def sim_xopen(filename, mode="r", compresslevel=None, threads=None, **kwargs):
